@@ -8,6 +8,7 @@ package main
 // K actions is executed on the real handler + session.
 
 import (
+	"github.com/b2broker/simplefix-go/storages/memory"
 	"fmt"
 	"sort"
 	"time"
@@ -37,6 +38,10 @@ type gridCase struct {
 	// silence must still end in the disconnect event (C09 "... then disconnected"); whether a peer
 	// that is not logged on is probed first is not judged.
 	After string `json:"after,omitempty"`
+	// FailSave = k > 0: the message store refuses the k-th message saved after the logon, once (a
+	// transient fault of the environment).  That message is not transmitted (C19); the session must go
+	// on heartbeating afterwards.
+	FailSave int `json:"fail_save,omitempty"`
 }
 
 type gridObs struct {
@@ -51,7 +56,15 @@ type gridObs struct {
 }
 
 func gridRun(c gridCase) (o gridObs, sig, detail string) {
-	w := newWorld(wcfg{Role: c.Role, Buf: 10, HbMin: 1, HbMax: 100, HbInt: c.N})
+	cfg := wcfg{Role: c.Role, Buf: 10, HbMin: 1, HbMax: 100, HbInt: c.N}
+	var fs *failingStore
+	if c.FailSave > 0 {
+		st := memory.NewStorage()
+		var slog []string
+		fs = &failingStore{Storage: st, log: &slog, failAt: c.FailSave, saved: map[int][]byte{}}
+		cfg.Store, cfg.MS = st, fs
+	}
+	w := newWorld(cfg)
 	o.discAt, o.stoppedAt = -1, -1
 	if c.PrevN > 0 {
 		w.logonOK(c.PrevN)
@@ -70,6 +83,9 @@ func gridRun(c gridCase) (o gridObs, sig, detail string) {
 	w.logonOK(c.N)
 	if !w.s.IsLogged() {
 		return o, "setup:not-logged", ""
+	}
+	if fs != nil {
+		fs.armed = true
 	}
 	switch c.After {
 	case "own-logout":
@@ -170,6 +186,50 @@ func c08Oracle(c gridCase, o gridObs) (string, string) {
 	if o.discAt < 0 {
 		if gap := end - tl[len(tl)-1].At; gap > Nd+tau {
 			return "silent-too-long", fmt.Sprintf("nothing sent for %v (> %v) after %s@%v until the horizon %v", gap, Nd+tau, typeName(mtype(tl[len(tl)-1].Msg)), tl[len(tl)-1].At, end)
+		}
+	}
+	return "", ""
+}
+
+// c08FaultOracle: one outbound message was refused by the store.  At most one gap may exceed N + tau,
+// and it is at most 2N + tau (the refused message's slot); everything after it obeys the plain rule.
+func c08FaultOracle(c gridCase, o gridObs) (string, string) {
+	Nd := time.Duration(c.N) * time.Second
+	tau := Nd / 10
+	end := o.end
+	if o.discAt >= 0 {
+		end = o.discAt
+	}
+	var tl []outMsg
+	for _, m := range o.outs {
+		if m.At <= end {
+			tl = append(tl, m)
+		}
+	}
+	if len(tl) == 0 {
+		return "no-logon-message", ""
+	}
+	long := 0
+	check := func(gap time.Duration, what string) (string, string) {
+		if gap > 2*Nd+tau {
+			return "silent-after-a-refused-send", fmt.Sprintf("%s: gap %v > %v (store refused save #%d once)", what, gap, 2*Nd+tau, c.FailSave)
+		}
+		if gap > Nd+tau {
+			long++
+			if long > 1 {
+				return "silent-after-a-refused-send", fmt.Sprintf("%s: a second gap of %v (store refused save #%d once)", what, gap, c.FailSave)
+			}
+		}
+		return "", ""
+	}
+	for i := 1; i < len(tl); i++ {
+		if s, d := check(tl[i].At-tl[i-1].At, fmt.Sprintf("between %s@%v and %s@%v", typeName(mtype(tl[i-1].Msg)), tl[i-1].At, typeName(mtype(tl[i].Msg)), tl[i].At)); s != "" {
+			return s, d
+		}
+	}
+	if o.discAt < 0 {
+		if s, d := check(end-tl[len(tl)-1].At, fmt.Sprintf("after %s@%v until the horizon %v", typeName(mtype(tl[len(tl)-1].Msg)), tl[len(tl)-1].At, end)); s != "" {
+			return s, d
 		}
 	}
 	return "", ""
@@ -365,7 +425,11 @@ func runGrid(R *vlib.Out, prop string) {
 		})
 		R.Transitions += int64(steps)
 		if sig == "" {
-			sig, d = oracle(c, o)
+			if c.FailSave > 0 {
+				sig, d = c08FaultOracle(c, o)
+			} else {
+				sig, d = oracle(c, o)
+			}
 		}
 		ntr, nhb := 0, 0
 		for _, m := range o.outs {
@@ -378,8 +442,8 @@ func runGrid(R *vlib.Out, prop string) {
 		}
 		out := fmt.Sprintf("hb=%d tr=%d disc=%v", nhb, ntr, o.discAt >= 0)
 		R.Outcome(out)
-		R.State(fmt.Sprintf("%s/%d/%v/%s/%d/%s", c.Role, c.N, c.Acts, c.Pattern, c.PrevN, c.After))
-		R.ClassU(fmt.Sprintf("%s/%d/%s/%s/%v/%d/%s", c.Role, c.N, out, c.Pattern, kinds(c.Acts), c.PrevN, c.After))
+		R.State(fmt.Sprintf("%s/%d/%v/%s/%d/%s/%d", c.Role, c.N, c.Acts, c.Pattern, c.PrevN, c.After, c.FailSave))
+		R.ClassU(fmt.Sprintf("%s/%d/%s/%s/%v/%d/%s/%d", c.Role, c.N, out, c.Pattern, kinds(c.Acts), c.PrevN, c.After, c.FailSave))
 		R.Sample(5, c)
 		if sig != "" {
 			R.Violate(sig, fmt.Sprintf("%+v: %s", c, d), c)
@@ -522,6 +586,30 @@ func runGrid(R *vlib.Out, prop string) {
 					}
 					if !try(gridCase{Role: role, N: N, PrevN: prev, Acts: acts, Horizon: 4*Nms + horizon, Pattern: "relogon-steady"}) {
 						return
+					}
+				}
+			}
+			if prop == "C08" {
+				// a transient fault of the message store: the k-th message saved after the logon is refused once;
+				// the peer keeps sending Heartbeats so that the session stays up; alone and with one application send
+				Nms := int64(N) * 1000
+				var beats []gact
+				for t := Nms / 2; t < 6*Nms; t += Nms / 2 {
+					beats = append(beats, gact{t, 2})
+				}
+				for k := 1; k <= 4; k++ {
+					if !try(gridCase{Role: role, N: N, Acts: beats, FailSave: k, Horizon: 6 * Nms, Pattern: "save-refused"}) {
+						return
+					}
+					for _, t := range gridPoints(N, true) {
+						if t >= 5*Nms {
+							continue
+						}
+						acts := append(append([]gact{}, beats...), gact{t, 1})
+						sort.SliceStable(acts, func(i, j int) bool { return acts[i].AtMs < acts[j].AtMs })
+						if !try(gridCase{Role: role, N: N, Acts: acts, FailSave: k, Horizon: 6 * Nms, Pattern: "save-refused"}) {
+							return
+						}
 					}
 				}
 			}
